@@ -14,7 +14,7 @@ type c10 struct{ base }
 
 func init() {
 	runner.Register(&c10{base{id: "C10", level: "exploration",
-		rule: "exhaustive boundary set: each type's boundary members (empty string, empty binary, false, NULL, empty list, empty map, single-element sets, every numeral notation: 1, 1.0, 01, 1e0, -0, 9007199254740993, 38 digits, 1E-130, 9.9E125, 0.1 …) at top level, inside L, inside M, and inside L-in-M-in-L nests down to depth 5; seeded value trees (depth <=3, thorough <=5) with 1-6 attributes. Each item is written with PutItem and read back with GetItem, Query, Scan and (SDK v2) BatchGetItem through both adapters; oracle = identity on canonical value trees (sets as sets, numbers by exact decimal value). non-trivial = contains a boundary member or nesting depth >=2; distinct by (adapter, type skeleton).",
+		rule: "exhaustive boundary set: each type's boundary members (empty string, empty binary, false, NULL, empty list, empty map, single-element sets, every numeral notation: 1, 1.0, 01, 1e0, -0, 9007199254740993, 38 digits, 1E-130, 9.9E125, 0.1 …) at top level, inside L, inside M, and inside L-in-M-in-L nests down to depth 5; seeded value trees (depth <=3, thorough <=5) with 1-6 attributes. Each item is written with PutItem and read back with GetItem, Query, Scan and (SDK v2) BatchGetItem through both adapters; additionally all items of a case (20-40) are written into two tables of one client and read back together (Query, Scan per table, one BatchGetItem naming both tables): every returned item must equal the one written under its key; oracle = identity on canonical value trees (sets as sets, numbers by exact decimal value). non-trivial = contains a boundary member or nesting depth >=2; distinct by (adapter, type skeleton).",
 		assumptions: []string{"identity oracle: no model logic involved", commonAssumptions[1]}}})
 }
 
@@ -179,6 +179,69 @@ func (p *c10) roundTrip(x *res, item val.Item, ctx *runner.Ctx) {
 	}
 }
 
+// multiRoundTrip writes all items of a case into TWO tables of one client (distinct sort keys under one
+// partition) and reads them back together: one Query, one Scan per table and one BatchGetItem that names
+// both tables. Every returned item must equal the one written under its key - a read path that shares
+// buffers between items or tables shows up here and not in the single-item round trip.
+func (p *c10) multiRoundTrip(x *res, items []val.Item, ctx *runner.Ctx) {
+	for _, adapter := range adapt.Adapters {
+		specs := []adapt.TableSpec{mon.SpecHashRange("tbl10a"), mon.SpecHashRange("tbl10b")}
+		cl, _, ds := freshClient(adapter, specs...)
+		if ds != nil {
+			x.viol("setup", "create", ds[0].Detail, specs)
+			return
+		}
+		written := map[string]map[string]val.Item{specs[0].Name: {}, specs[1].Name: {}}
+		gets := []adapt.BatchEntry{}
+		for i, item := range items {
+			t := specs[i%2].Name
+			it := item.Clone()
+			it["h"] = val.Str("k")
+			it["r"] = val.Str(fmt.Sprintf("s%03d", i))
+			if put := cl.Do(adapt.Op{Kind: adapt.OpPut, Table: t, Item: it}); put.Class != adapt.ClsOK {
+				continue // reported by the single-item round trip
+			}
+			written[t][it["r"].Str] = it
+			gets = append(gets, adapt.BatchEntry{Table: t, Del: val.Item{"h": it["h"], "r": it["r"]}})
+		}
+		check := func(read, table string, back []val.Item) {
+			x.r.Counters["multi-reads:"+read]++
+			ok := len(back) == len(written[table])
+			for _, b := range back {
+				w, have := written[table][b["r"].Str]
+				if !have || !val.ItemsEqual(b, w) {
+					if have && len(modelQuirkNames(b, w)) > 0 {
+						continue // the listed empty-L/M quirk is reported by the single-item round trip
+					}
+					ok = false
+				}
+			}
+			if !ok {
+				want := []val.Item{}
+				for _, w := range written[table] {
+					want = append(want, w)
+				}
+				x.viol("multi-roundtrip", adapter+"/"+read, fmt.Sprintf("[%s] %s of %s after writing %d items into two tables returned %s; written to that table: %s", adapter, read, table, len(items), trunc400(adapt.ItemsSetCanon(back)), trunc400(adapt.ItemsSetCanon(want))),
+					map[string]interface{}{"adapter": adapter, "items": items, "read": read, "table": table})
+			}
+		}
+		for _, sp := range specs {
+			q := cl.Do(queryOp(sp.Name, "", keyCondEq("h", ":h"), nil, val.Item{":h": val.Str("k")}, false, rrCanon))
+			check("query", sp.Name, q.Items)
+			sc := cl.Do(adapt.Op{Kind: adapt.OpScan, Table: sp.Name})
+			check("scan", sp.Name, sc.Items)
+			x.r.Evals += 2
+		}
+		bg := cl.Do(adapt.Op{Kind: adapt.OpBatchGet, Gets: gets})
+		x.r.Evals++
+		if bg.Class == adapt.ClsOK {
+			for _, sp := range specs {
+				check("batchget", sp.Name, bg.Resp[sp.Name])
+			}
+		}
+	}
+}
+
 func (p *c10) RunCase(ctx *runner.Ctx) runner.CaseResult {
 	x := newRes()
 	if c10Cache == nil {
@@ -186,9 +249,14 @@ func (p *c10) RunCase(ctx *runner.Ctx) runner.CaseResult {
 	}
 	blocks := (len(c10Cache) + c10Block - 1) / c10Block
 	if ctx.Case < blocks {
-		for i := ctx.Case * c10Block; i < (ctx.Case+1)*c10Block && i < len(c10Cache); i++ {
+		hi := (ctx.Case + 1) * c10Block
+		if hi > len(c10Cache) {
+			hi = len(c10Cache)
+		}
+		for i := ctx.Case * c10Block; i < hi; i++ {
 			p.roundTrip(x, c10Cache[i], ctx)
 		}
+		p.multiRoundTrip(x, c10Cache[ctx.Case*c10Block:hi], ctx)
 		if ctx.Case%5 == 0 {
 			x.r.Sample = map[string]interface{}{"kind": "boundary", "item": c10Cache[ctx.Case*c10Block]}
 		}
@@ -201,6 +269,7 @@ func (p *c10) RunCase(ctx *runner.Ctx) runner.CaseResult {
 		depth = 5
 	}
 	opts := mon.GenOpts{MaxDepth: depth, Numerals: mon.Numerals, AllowEmptyB: true}
+	all := []val.Item{}
 	for k := 0; k < 20; k++ {
 		item := val.Item{}
 		n := 1 + r.Intn(6)
@@ -208,9 +277,11 @@ func (p *c10) RunCase(ctx *runner.Ctx) runner.CaseResult {
 			item[fmt.Sprintf("a%d", i)] = mon.Value(r, r.Intn(depth+1), opts)
 		}
 		p.roundTrip(x, item, ctx)
+		all = append(all, item)
 		if k == 0 && idx < 2 {
 			x.r.Sample = map[string]interface{}{"kind": "seeded", "item": item}
 		}
 	}
+	p.multiRoundTrip(x, all, ctx)
 	return x.r
 }
